@@ -1,6 +1,7 @@
 import FordModel.Proto
 import FordModel.Parse
 import FordModel.TypeSpec
+import FordModel.Mask
 namespace Ford
 open Proto Parse
 
@@ -56,6 +57,8 @@ def optStr : Option Str → Str
 
 def tErrStr (e : TypeSpec.TErr) : String := (reprStr e).replace "Ford.TypeSpec.TErr." ""
 
+def mErrStr (e : Mask.Err) : String := (reprStr e).replace "Ford.Mask.Err." ""
+
 def errStr (e : Err) : String := (reprStr e).replace "Ford.Parse.Err." ""
 def excStr (e : Exc) : String := (reprStr e).replace "Ford.Parse.Exc." ""
 
@@ -74,6 +77,20 @@ def dispatchC01 : List Str → Option (List Str)
         | .ok p => some ["ok".toList, p.vartype, p.rest, C01D.optStr p.kind, C01D.optStr p.strlen,
                          C01D.optStr (p.proto.map (·.1)), C01D.optStr (p.proto.map (·.2))]
         | .error e => some ["err".toList, (C01D.tErrStr e).toList]
+      | _ => some ["bad-args".toList]
+    else if cmd == "c01.mask".toList then
+      match args with
+      | [s] =>
+        match Mask.mask s with
+        | .ok (m, strs) => some ("ok".toList :: m :: strs)
+        | .error e => some ["err".toList, (C01D.mErrStr e).toList]
+      | _ => some ["bad-args".toList]
+    else if cmd == "c01.restore".toList then
+      match args with
+      | s :: strs =>
+        match Mask.restore Mask.nbsp s strs with
+        | .ok r => some ["ok".toList, r]
+        | .error e => some ["err".toList, (C01D.mErrStr e).toList]
       | _ => some ["bad-args".toList]
     else none
   | [] => none
